@@ -30,7 +30,7 @@ abbrev lOps : DbOps String String String String := stampOps String
 
 def instrName : Instr String String String → String
   | .aRead _ => "A.read" | .aReadUnlock _ => "A.read_unlock" | .aWrite1 => "A.write1" | .aWrite2 => "A.write2"
-  | .aTryWrite => "A.try_write" | .aWriteUnlock => "A.write_unlock" | .mLock => "M.lock" | .mUnlock => "M.unlock"
+  | .aTryWrite => "A.try_write" | .aWriteUnlock _ => "A.write_unlock" | .mLock => "M.lock" | .mUnlock => "M.unlock"
   | .sessRoot _ => "sess_root" | .readRoot => "read_root" | .sessRead _ => "sess_read"
   | .chkMarker _ => "chk_marker" | .chkPoison => "chk_poison" | .chkRoot _ => "chk_root" | .chkSeen => "chk_seen"
   | .pubRoot _ _ => "pub_root" | .pubRb => "pub_rb" | .logPush _ _ => "log_push" | .logPop _ => "log_pop"
